@@ -283,6 +283,36 @@ pub fn pipeline(comp: &str, seed: u64, runs: usize, n: usize, w: &mut dyn Write)
     }
 }
 
+/// systematic driver: EVERY sequence of `len` inputs over a small alphabet of realistic actions
+/// (press / release of the modifier and lock keys, of a letter, a digit and a numpad key, and the two
+/// Ctrl-handling modes), each on a fresh object. Bounded-exhaustive short histories: complements
+/// the breadth-first graph when a change multiplies the state space beyond the exploration cap.
+pub fn systematic(comp: &str, len: usize, w: &mut dyn Write) {
+    use pc_keyboard::KeyCode as K;
+    let keys = [K::LShift, K::RControl, K::RAltGr, K::LAlt, K::CapsLock, K::NumpadLock, K::RControl2, K::A, K::Key3, K::Numpad7];
+    let mut alpha: Vec<Input> = Vec::new();
+    for k in keys {
+        alpha.push(Input::Key(k, KeyState::Down));
+        alpha.push(Input::Key(k, KeyState::Up));
+    }
+    alpha.push(Input::Mode(HandleControl::MapLettersToUnicode));
+    alpha.push(Input::Mode(HandleControl::Ignore));
+    let n = alpha.len();
+    let total = n.pow(len as u32);
+    for v in 0..total {
+        let mut m = make(comp);
+        let st: Value = stage_json(&m);
+        writeln!(w, "{}", json!({"in": ["reset"], "ret": ["none"], "q": ["noq"], "obs": m.obs(), "stage": st})).unwrap();
+        let mut x = v;
+        for _ in 0..len {
+            if !log(w, &mut m, &alpha[x % n]) {
+                break;
+            }
+            x /= n;
+        }
+    }
+}
+
 /// replay a scripted list of scenarios: JSON array of arrays of inputs, each on a fresh object
 pub fn scripted(comp: &str, scenarios: &Value, w: &mut dyn Write) {
     for sc in scenarios.as_array().expect("scenarios: array") {
